@@ -111,13 +111,30 @@ func verifVersionsRunFrom(prefixOps []int, steps int, checkImmutable bool, known
 			}
 		}
 		switch op {
-		case 0: // put
+		case 0, 10: // put; 10: append (no part rows at this layer: what matters is which object row the append rewrites)
 			obj := &metadatastore.Object{Key: key, ETag: etags[puts], Size: 1}
-			_, err := sms.PutObject(verifCtx, tx, bucket, obj, nil)
+			var err error
+			if op == 10 {
+				verifCover("append")
+				// objects written by the plain puts of this harness have no part rows; an
+				// append to a multipart-completed object needs the storage layer's part
+				// bookkeeping (shared part ids) and is decided there (C12), not here
+				if h, herr := sms.HeadObject(verifCtx, tx, bucket, key); herr == nil && !h.IsDeleteMarker {
+					verifAssume(len(h.Parts) == 0)
+				}
+				_, err = sms.AppendObject(verifCtx, tx, bucket, obj, &metadatastore.AppendObjectOptions{})
+			} else {
+				_, err = sms.PutObject(verifCtx, tx, bucket, obj, nil)
+			}
 			if err != nil && !verifNative() {
 				panic(err)
 			}
-			verifAssert(err == nil, "versioning: PutObject failed")
+			verifAssert(err == nil, "versioning: PutObject / AppendObject failed")
+			if op == 10 && status != "Enabled" && obj.VersionID == nil {
+				// outside an Enabled bucket an append writes the null version, like every other write there
+				null := "null"
+				obj.VersionID = &null
+			}
 			verifAssert(obj.VersionID != nil, "versioning: PutObject returned no version id")
 			vid := *obj.VersionID
 			model.seq++
